@@ -230,7 +230,7 @@ def run_scn(item, acc):
     if len(acc.samples) < 3:
         acc.sample({"scenario": {"init_out": scn[0], "init_err": scn[1], "eof0": scn[2],
                                  "fileno_first": scn[3], "threads": scn[4]},
-                    "schedules": res.executions, "end_states": sorted(map(list, seen))})
+                    "schedules": res.executions, "end_states": sorted(map(list, seen), key=repr)})
 
 
 def main(tier):
